@@ -206,7 +206,8 @@ def encode_object(value):
     elif isinstance(value, dict):
       if not all(isinstance(key, str) for key in value):
         raise UnmarshallableError("Dict with non-string keys")
-      return ['O', {key: encode_object(val) for key, val in value.items()}]
+      # Cast keys to the primitive type too, to ensure they are marshallable.
+      return ['O', {str(key): encode_object(val) for key, val in value.items()}]
     elif value == _pending_sentinel:
       return ['P']
     elif value == _censored_sentinel:
@@ -217,7 +218,7 @@ def encode_object(value):
     pass
   # We either don't know how to convert the value, or failed during the conversion. Instead we
   # return an "UnmarshallableValue" object, with repr() of the value to show to the user.
-  return ['U', safe_repr(value)]
+  return ['U', str(safe_repr(value))]
 
 def decode_object(value):
   """
